@@ -170,31 +170,43 @@ def body_split_node(s, ms):
     return len(got) >= 2
 
 
-def body_keyval(s, policy):
-    """s from a key=value template: agree with 'split at commas, then at the first equals sign'."""
+KV_TEMPLATES = {
+    # name: (skeleton, [(key positions, value positions or None)])  -- positions index into s
+    'two': ('?=1,?=2', [((0,), (2,)), ((4,), (6,))]),
+    'rep': ('a=?,a=?', [((0,), (2,)), ((4,), (6,))]),
+    'noval': ('?,?=1', [((0,), None), ((2,), (4,))]),
+    'eqeq': ('?=?=1', [((0,), (2, 3, 4))]),
+    'three': ('?=1,b=2,?=3', [((0,), (2,)), ((4,), (6,)), ((8,), (10,))]),
+}
+
+
+def body_keyval(s, policy, tname):
+    """agree with 'split at commas, then at the first equals sign'; the expectation is computed from the template
+    (the separators are pinned), not by re-splitting the string."""
     nl = get_list(s)
     if nl is None:
         return False
+    sk, pairs = KV_TEMPLATES[tname]
     exp_err = False
-    exp = {}
-    order = []
-    for part in s.split(','):
-        if part == '':
-            continue
-        k, eq, v = part.partition('=')
-        if k in exp:
-            if policy == 'error':
-                exp_err = True
-                break
-            elif policy == 'first':
-                pass
-            elif policy == 'last':
-                exp[k] = v
-            else:
-                exp[k] = exp[k] + v
+    exp = []            # list of [key, value-or-None]
+    for kpos, vpos in pairs:
+        k = ''.join(s[i] for i in kpos)
+        v = None if vpos is None else ''.join(s[i] for i in vpos)
+        hit = None
+        for e in exp:
+            if e[0] == k:
+                hit = e
+        if hit is None:
+            exp.append([k, v])
+        elif policy == 'error':
+            exp_err = True
+            break
+        elif policy == 'first':
+            pass
+        elif policy == 'last':
+            hit[1] = v
         else:
-            exp[k] = v
-            order.append(k)
+            hit[1] = (hit[1] or '') + (v or '')
     try:
         got = nl.parse_keyval_content(repeated_key_aggregate_action=policy, default_value_nodelist=None)
     except ValueError:
@@ -205,12 +217,13 @@ def body_keyval(s, policy):
     except Exception as e:
         fail('parse_keyval_content raised %s' % type(e).__name__)
     require(not exp_err, 'repeated key under policy error did not raise ValueError')
-    require(list(got.keys()) == order, 'keys differ from splitting at commas and at the first equals sign')
-    for k in order:
-        v = got[k]
-        txt = ''.join(x.latex_verbatim() for x in v if x is not None)
-        require(txt == exp[k], 'value of a key differs from the text after the first equals sign (policy %s)' % policy)
-    return len(order) >= 1
+    keys = list(got.keys())
+    require(len(keys) == len(exp), 'number of keys differs from splitting at commas and at the first equals sign')
+    for (k, v), gk in zip(exp, keys):
+        require(gk == k, 'keys differ from splitting at commas and at the first equals sign')
+        txt = ''.join(x.latex_verbatim() for x in got[gk] if x is not None)
+        require(txt == (v or ''), 'value of a key differs from the text after the first equals sign (policy %s)' % policy)
+    return len(exp) >= 1
 
 
 def alnum_pre(sk):
@@ -242,11 +255,12 @@ def conditions(tier):
         for sn in SEPS:
             conds.append(Cond('split_%s_eq3' % sn, P, ['len(s) == 3'], 'body_split_all(s, %r)' % sn,
                               timeout=T * 2, cost=4, twin=False))
-    conds.append(Cond('splitnode', 's: str, ms: int', skel_pre('?{?}?{}?') + ['-1 <= ms <= 2'], 'body_split_node(s, ms)', timeout=T,
-                      smoke=[dict(s='a{b}c{}d', ms=m) for m in (-1, 0, 1, 2)], twin=False))
+    for m in (-1, 0, 1, 2):
+        conds.append(Cond('splitnode_ms%d' % (m + 1), 's: str', skel_pre('?{x}?{}x'), 'body_split_node(s, %d)' % m, timeout=T,
+                          smoke=[dict(s='a{x}c{}x')], twin=False))
     for pol in ('concatenate', 'first', 'last', 'error'):
-        for nm, sk in [('two', '?=?,?=?'), ('rep', 'a=?,a=?'), ('noval', '?,?=?'), ('eqeq', '?=?=?')]:
-            conds.append(Cond('keyval_%s_%s' % (pol, nm), 's: str', alnum_pre(sk), 'body_keyval(s, %r)' % pol, timeout=T,
+        for nm, (sk, _) in KV_TEMPLATES.items():
+            conds.append(Cond('keyval_%s_%s' % (pol, nm), 's: str', alnum_pre(sk), 'body_keyval(s, %r, %r)' % (pol, nm), timeout=T,
                               smoke=[dict(s=sk.replace('?', 'a')), dict(s=sk.replace('?', 'b', 1).replace('?', 'a'))],
                               twin=False))
     return conds
